@@ -8,6 +8,7 @@
 
   All statements are about GeoModel.Object as written.
 -/
+import GeoProofs.DispatchFacts
 import GeoProofs.Props.C10
 
 namespace Geo
@@ -261,18 +262,33 @@ theorem feature_argument_transparent_intersects
   rw [Bool.eq_iff_iff, intersects_iff_geoLeaves hmeet hempty, intersects_iff_geoLeaves hmeet hempty,
     Obj.geoLeaves]
 
-/-- Symmetry of Intersects on ALL objects (collection × feature-of-collection included, checked by
-    `#eval` on 242² small objects before proving) from symmetry on leaf pairs.  Besides leaf
-    symmetry the reduction uses the two other leaf-level laws, because the two directions apply
-    the rectangle / emptiness prefilters at different levels of the nesting. -/
+/-- The same without the rectangle law: given only that empty leaves intersect nothing,
+    `a.intersects b` holds iff some geometry atom of `a` intersects some geometry atom of `b` AND
+    their rectangles meet — that condition being waived when neither side involves a collection
+    (`isLeafDeep`: then no `Search` ever runs). -/
+theorem intersects_iff_atoms_rect
+    (hempty : ∀ a b : Obj, a.isLeaf = true → b.isLeaf = true → (a.empty = true ∨ b.empty = true) →
+      a.intersects b = false) :
+    ∀ a b : Obj, a.intersects b = true ↔
+      ∃ la ∈ a.geoLeaves, ∃ lb ∈ b.geoLeaves,
+        (la.rect.intersects lb.rect = true ∨ (a.isLeafDeep = true ∧ b.isLeafDeep = true)) ∧
+        la.intersects lb = true :=
+  fun a b => intersects_iff_geoLeaves_rect_on (C := fun _ => True)
+    (fun a b ha hb _ _ => hempty a b ha hb) a b (allLeaves_true a) (allLeaves_true b)
+
+/-- Symmetry of Intersects on ALL objects (collection × feature-of-collection included; checked by
+    `#eval` on 242² small objects before proving; Circles included, they answer `false` both ways)
+    from symmetry on leaf pairs.  One more leaf-level fact is needed: an empty leaf intersects
+    nothing — a collection receiver drops the empty parts of its argument (`ForEach` + `Empty`)
+    while a leaf receiver hands an empty argument to the leaf predicate, so without it the two
+    directions could differ.  The rectangle law is NOT needed: both directions apply the
+    rectangle prefilter to the same pairs of atoms. -/
 theorem intersects_symm_partial
-    (hmeet : ∀ a b : Obj, a.isLeaf = true → b.isLeaf = true → a.intersects b = true →
-      a.rect.intersects b.rect = true)
     (hempty : ∀ a b : Obj, a.isLeaf = true → b.isLeaf = true → (a.empty = true ∨ b.empty = true) →
       a.intersects b = false)
     (hsym : ∀ a b : Obj, a.isLeaf = true → b.isLeaf = true → a.intersects b = b.intersects a) :
     ∀ a b : Obj, a.intersects b = b.intersects a :=
-  intersects_symm_lift hmeet hempty hsym
+  intersects_symm_lift hempty hsym
 
 /-! ### the leaf-level facts themselves, for Point / SimplePoint / Rect receivers and arguments -/
 
@@ -336,7 +352,6 @@ theorem point_rect_intersects_implies_rects_meet (a b : Obj) (ha : a.PointRectOn
 theorem point_rect_intersects_symm (a b : Obj) (ha : a.PointRectOnly) (hb : b.PointRectOnly) :
     a.intersects b = b.intersects a :=
   intersects_symm_lift_on (C := fun g => g.isPointOrRect = true)
-    (fun a b _ _ ca cb => pr_intersects_rects_meet a b ca cb)
     (fun a b _ _ ca cb h => by
       rcases h with h | h
       · rw [pr_not_empty a ca] at h; cases h
@@ -386,6 +401,7 @@ end Geo
 #print axioms Geo.intersects_empty_false_partial
 #print axioms Geo.intersects_iff_atoms
 #print axioms Geo.feature_argument_transparent_intersects
+#print axioms Geo.intersects_iff_atoms_rect
 #print axioms Geo.intersects_symm_partial
 #print axioms Geo.leaf_contains_rect_covers_point_rect
 #print axioms Geo.leaf_intersects_rects_meet_point_rect
